@@ -23,7 +23,8 @@ RULE = ("Enumerated completely: every series over {ND,-1,0,1,2} of length 1..8 x
         "order). Oracle, set-valued where the property is: complete window without ND -> exact sum; all ND -> ND; mixed -> ND or the "
         "sum of the valid cells; mean_grp -> mean of the group's non-ND cells or ND; outputs for two ND choices agree after mapping "
         "ND<->ND'. Non-trivial: the series contains ND next to valid cells; distinct by (series, window). "
-        " Added after the fourth seeded round: float32 series with cells of 1e20 / 3e38 / 2^40 among small numbers (every window without such a cell stays exact).")
+        " Added after the fourth seeded round: float32 series with cells of 1e20 / 3e38 / 2^40 among small numbers (every window without such a cell stays exact). "
+        " Added after the fifth seeded round: Sentinels at the edge of the dtype (float32 minimum, 9.97e36, int64 minimum); generic 'history' sub-check for rolling.sum / mean_grp.")
 ASSUME = ["numpy sliding_window_view / integer sums as model"]
 EXHAUSTIVE_WHOLE = False
 
